@@ -75,6 +75,11 @@ def upper_bound(end, anc, ctxinfo):
                 if e and e["?o"] in ("le", "lt"):
                     ks.append(int(e["?k"]))
                     continue
+            # the same, with the guard as a conditional inside the arm:  P => if v <= K { v } else { return Err }
+            e = M(("if", ("op", "?o", "_", "?v", ("lit", "?k", "_")), "?v", ("return", "_")), val)
+            if e and e["?o"] in ("le", "lt"):
+                ks.append(int(e["?k"]))
+                continue
             okm = False
         if okm and ks:
             return max(ks), "match guard v <= %d" % max(ks)
@@ -258,7 +263,7 @@ def must_consume_set(m):
     for n in names:
         f = m.tb.fn("::parser::Parser::" + n)
         if f is not None:
-            terms["P." + n] = m.tb.fn_term(f)
+            terms["P." + n] = m.tb.parser_term(f)
     MC = {CONSUME_TOKEN}
     changed = True
 
